@@ -20,7 +20,7 @@ fn main() {
   rxverif::vsched::install_timer();
   let cases: J = serde_json::from_reader(std::fs::File::open(arg("--cases").expect("--cases")).unwrap()).unwrap();
   let cases = cases["cases"].as_array().unwrap().clone();
-  let model: J = serde_json::from_reader(std::fs::File::open(arg("--model").expect("--model")).unwrap()).unwrap();
+  let model: J = arg("--model").map(|m| serde_json::from_reader(std::fs::File::open(m).unwrap()).unwrap()).unwrap_or(json!({}));
   let bound: usize = arg("--bound").map(|s| s.parse().unwrap()).unwrap_or(2);
   let max_runs: usize = arg("--max-runs").map(|s| s.parse().unwrap()).unwrap_or(4000);
   let only: Option<usize> = arg("--case").map(|s| s.parse().unwrap());
@@ -38,6 +38,13 @@ fn main() {
       pre: case["pre"].as_array().unwrap().iter().map(Stim::from_json).collect(),
       threads: case["threads"].as_array().unwrap().iter().map(|t| t.as_array().unwrap().iter().map(Stim::from_json).collect()).collect(),
     };
+    // --replay "<t1,t2,...>": run the given schedule once and print what happened
+    if let Some(sched) = arg("--replay") {
+      let prefix: Vec<usize> = sched.split(',').filter(|x| !x.is_empty()).map(|x| x.trim().parse().unwrap()).collect();
+      let r = run_once(&spec, &prefix);
+      println!("{}", serde_json::to_string_pretty(&json!({"outcome": outcome(&r), "sched": r.decisions.iter().map(|d| d.1).collect::<Vec<_>>(), "events": r.events})).unwrap());
+      return;
+    }
     let allowed: BTreeSet<String> = model[(ci + 1).to_string()].as_array().map(|a| a.iter().map(|o| o.to_string()).collect()).unwrap_or_default();
     let mut seen: BTreeMap<String, (u64, J, J)> = BTreeMap::new();
     let t0 = std::time::Instant::now();
